@@ -384,6 +384,9 @@ def pools():
     P["negint-canonical"] = ([var(m, canonicalize=True) for m in neg], ["expr", "array_contract", "path"])
     P["ncon-canonical"] = ([dict(inputs=((-1, 1), (1, -2)), shapes=sq), dict(inputs=((-2, 1), (1, -1)), shapes=sq),
                             dict(inputs=((-1, 1), (-2, 1)), shapes=sq)], ["ncon"])
+    # ncon with the labels kept as given: its output is a list, hence never cached (falls back)
+    P["ncon-raw"] = ([dict(inputs=((-1, 1), (1, -2)), shapes=sq, canonicalize=False),
+                      dict(inputs=((-2, 1), (1, -1)), shapes=sq, canonicalize=False)], ["ncon"])
     return P
 
 
@@ -393,13 +396,10 @@ def known_pools():
     K = {}
     neg = [dict(inputs=((-1, 1), (1, -2)), output=(-1, -2), shapes=sq),
            dict(inputs=((-2, 1), (1, -1)), output=(-1, -2), shapes=sq),
-           dict(inputs=((-1, -2),), output=(-1,), shapes=((2, 2),)),
-           dict(inputs=((-1, -2),), output=(-2,), shapes=((2, 2),)),
+           dict(inputs=((-1, 2), (2, -2)), output=(-2, -1), shapes=sq),
            dict(inputs=((-1,), (-2,)), output=(), shapes=((2,), (2,)), size_dict=((-1, 2), (-2, 2))),
            dict(inputs=((-1,), (-1,)), output=(), shapes=((2,), (2,)), size_dict=((-1, 2), (-2, 2)))]
     K["negint-raw"] = ([var(m, canonicalize=False) for m in neg], ["expr", "array_contract"], KEY_COLLISION)
-    K["ncon-raw"] = ([dict(inputs=((-1, 1), (1, -2)), shapes=sq, canonicalize=False),
-                      dict(inputs=((-2, 1), (1, -1)), shapes=sq, canonicalize=False)], ["ncon"], KEY_COLLISION)
     K["unhashable-path"] = ([var(B3, optimize=[[0, 1], [0, 1]]), var(B3, optimize=[[1, 2], [0, 1]]),
                              var(B2, lists=True, canonicalize=False),
                              var(B2, lists=True, canonicalize=False, output=("c", "a"))],
@@ -500,9 +500,11 @@ def judge_sequence(ctx, pool, specs, results, oracle, np, where, known_key=None)
                 seen_obj.setdefault(res["obj"], (cls, spec, i))
         if bad:
             key = None
-            if known_key == KEY_COLLISION and any(is_collision_class(s) for s in specs):
+            cached = all(s.get("cache", True) for s in specs)
+            wrong_answer = not res.get("exc")       # a wrong value / a shared object, not an exception
+            if known_key == KEY_COLLISION and cached and wrong_answer and is_collision_class(spec):
                 key = KEY_COLLISION
-            if known_key == KEY_UNHASHABLE and is_unhashable_class(spec, res):
+            if known_key == KEY_UNHASHABLE and cached and is_unhashable_class(spec, res):
                 key = KEY_UNHASHABLE
             rep = {"pool": pool, "where": where, "failing_call": i, "what": bad,
                    "sequence": [{k: v for k, v in s.items()} for s in specs],
@@ -1139,18 +1141,18 @@ def probe_known(ctx, ctg, I, np, key_hashed, info):
     e2 = ctg.array_contract_expression(((-1,), (-1,)), (), size_dict=sd, canonicalize=False)
     v1, v2 = int(e1(x, y)), int(e2(x, y))
     a = np.array([[1, 2], [3, 4]], dtype=np.int64)
-    b = np.array([[1, 1], [0, 1]], dtype=np.int64)
+    b = np.array([[1, 1], [0, 2]], dtype=np.int64)
     I._CONTRACT_EXPR_CACHE.clear()
-    n1 = ctg.ncon([a, b], [(-1, 1), (1, -2)], canonicalize=False)
-    n2 = ctg.ncon([a, b], [(-2, 1), (1, -1)], canonicalize=False)
+    ctg.array_contract([a, b], ((-1, 1), (1, -2)), (-1, -2), canonicalize=False)
+    n2 = ctg.array_contract([a, b], ((-2, 1), (1, -1)), (-1, -2), canonicalize=False)
     I._CONTRACT_EXPR_CACHE.clear()
     ctx.count("probe:collision")
     collided = (e1 is e2) or (v1, v2) != (21, 11) or not np.array_equal(n2, (a @ b).T)
     if collided:
         rep = {"repro": "array_contract_expression(((-1,),(-2,)),(),size_dict={-1:2,-2:2},canonicalize=False) then "
-                        "(((-1,),(-1,)), ...): same object=%s values=%r (want (21, 11)); ncon([a,b],[(-2,1),(1,-1)],"
-                        "canonicalize=False) after [(-1,1),(1,-2)] = %r want %r" % (e1 is e2, (v1, v2), n2.tolist(),
-                                                                                   (a @ b).T.tolist()),
+                        "(((-1,),(-1,)), ...): same object=%s values=%r (want (21, 11)); array_contract([a,b],"
+                        "((-2,1),(1,-1)),(-1,-2),canonicalize=False) after ((-1,1),(1,-2)) = %r want %r" % (
+                            e1 is e2, (v1, v2), n2.tolist(), (a @ b).T.tolist()),
                "theorem": "C13_legacy_key_transparency_refuted / C13_hash_inj_refuted",
                "key_hashed_in_source": key_hashed}
         ctx.fail("two different contractions share a cache entry: hash(-1) == hash(-2) and the dict is keyed on "
